@@ -396,3 +396,119 @@ Proof. intros W. unfold get. specialize (W v). destruct (e v) as [[?|?|?]|]; aut
 Theorem history_independent ops1 ops2 e1 e2 : run empty ops1 = Val e1 -> run empty ops2 = Val e2 ->
   (forall v, e1 v = e2 v) -> print_entry e1 = print_entry e2.
 Proof. intros _ _. apply print_ext. Qed.
+
+(* ================= canonical text, syntactically ================= *)
+Lemma line_kv_inv l v x : line_kv l = Some (v, x) -> l = kv_line v x.
+Proof.
+  unfold line_kv. destruct (split_once 61 l) as [[k y]|] eqn:E; [|discriminate].
+  destruct (parse_name k) eqn:P; [|discriminate]. intros [= -> ->].
+  apply split_once_some in E as [-> _]. apply parse_name_inv in P as ->. reflexivity.
+Qed.
+Definition line_var (l : str) : option var := match line_kv l with Some (v, _) => Some v | None => None end.
+Definition lines_of (v : var) (ls : list str) : list str :=
+  filter (fun l => match line_var l with Some w => var_eqb w v | None => false end) ls.
+Fixpoint eql (a b : list str) : bool :=
+  match a, b with [], [] => true | x :: a', y :: b' => eqs x y && eql a' b' | _, _ => false end.
+(* the lines come grouped by variable, variables in the fixed order, and a
+   single-valued variable has at most one line *)
+Definition grouped (ls : list str) : bool :=
+  eql ls (flat_map (fun v => lines_of v ls) all_vars) &&
+  forallb (fun v => match kind_of v with KA => true | _ => Nat.leb (List.length (lines_of v ls)) 1 end) all_vars.
+(* 'VAR=value' with a known VAR; integers in the form Display prints *)
+Definition line_canon (l : str) : bool :=
+  match line_kv l with
+  | Some (v, x) => match kind_of v with
+                   | KI => match parse_i64 x with Some z => eqs (print_z z) x | None => false end
+                   | _ => true
+                   end
+  | None => false
+  end.
+Definition has_var (ls : list str) (v : var) : bool :=
+  existsb (fun l => match line_var l with Some w => var_eqb w v | None => false end) ls.
+Definition canonical_lines (ls : list str) : bool :=
+  forallb line_canon ls && grouped ls && forallb (has_var ls) required.
+(* the text is its lines, each ended by one LF (no CRLF, no missing final newline) *)
+Definition is_canonical (t : str) : bool := eqs t (term_lines (lines t)) && canonical_lines (lines t).
+
+Lemma eql_eq a : forall b, eql a b = true -> a = b.
+Proof. induction a as [|x a IH]; intros [|y b]; cbn [eql]; try discriminate; auto.
+  intros H. apply andb_prop in H as [H1 H2]. apply eqs_eq in H1. f_equal; auto. Qed.
+Lemma eql_refl a : eql a a = true.
+Proof. induction a as [|x a IH]; cbn [eql]; auto. rewrite eqs_refl, IH. reflexivity. Qed.
+Lemma lines_of_vals v ls : lines_of v ls = map (kv_line v) (vals_of v ls).
+Proof.
+  unfold lines_of, vals_of, line_var. induction ls as [|l ls IH]; cbn [filter flat_map]; auto.
+  destruct (line_kv l) as [[w x]|] eqn:E; [|exact IH].
+  destruct (var_eqb_spec w v) as [->|]; [|exact IH]. cbn [app map]. rewrite IH. f_equal. apply line_kv_inv. exact E.
+Qed.
+Lemma line_canon_ok l : line_canon l = true -> line_ok l.
+Proof.
+  unfold line_canon, line_ok. destruct (line_kv l) as [[v x]|]; [|discriminate]. intros H. exists v, x. split; auto.
+  intros K. rewrite K in H. destruct (parse_i64 x); [discriminate|discriminate].
+Qed.
+Lemma has_var_present ls v : has_var ls v = true -> present v ls.
+Proof.
+  unfold has_var, present, vals_of, line_var. induction ls as [|l ls IH]; cbn [existsb flat_map]; [discriminate|].
+  destruct (line_kv l) as [[w x]|]; [|exact IH]. destruct (var_eqb w v); [discriminate|exact IH].
+Qed.
+(* what the accepted entry prints for v is exactly what the text said for v *)
+Lemma strs_collect v ls : Forall (fun l => line_canon l = true) ls ->
+  (match kind_of v with KA => True | _ => (List.length (vals_of v ls) <= 1)%nat end) ->
+  strs_of (collect v ls) = vals_of v ls.
+Proof.
+  intros Hc Hl. unfold collect. destruct (vals_of v ls) as [|x r] eqn:E; [reflexivity|].
+  destruct (kind_of v) eqn:K.
+  - destruct r; [reflexivity|cbn in Hl; lia].
+  - destruct r; [|cbn in Hl; lia]. cbn [last].
+    assert (In x (vals_of v ls)) as Hin by (rewrite E; left; reflexivity).
+    unfold vals_of in Hin. apply in_flat_map in Hin as (l & Hl1 & Hl2).
+    rewrite Forall_forall in Hc. specialize (Hc l Hl1). unfold line_canon in Hc.
+    destruct (line_kv l) as [[w y]|]; [|destruct Hl2]. destruct (var_eqb_spec w v) as [->|]; [|destruct Hl2].
+    destruct Hl2 as [->|[]]. rewrite K in Hc. destruct (parse_i64 x) as [z|]; [|discriminate].
+    apply eqs_eq in Hc. cbn [option_map strs_of]. rewrite Hc. reflexivity.
+  - reflexivity.
+Qed.
+Theorem canonical_print_parse t : is_canonical t = true ->
+  exists e, parse_entry t = Val e /\ print_entry e = t.
+Proof.
+  unfold is_canonical, canonical_lines, grouped. intros H.
+  apply andb_prop in H as [Ht H]. apply andb_prop in H as [H Hreq]. apply andb_prop in H as [Hc Hg].
+  apply andb_prop in Hg as [Hg Hs]. apply eqs_eq in Ht. apply eql_eq in Hg.
+  rewrite forallb_forall in Hc, Hreq, Hs.
+  assert (Forall (fun l => line_canon l = true) (lines t)) as Fc by (apply Forall_forall; exact Hc).
+  assert (is_val (parse_entry t) = true) as Hv.
+  { apply parse_entry_accept_iff. split.
+    - eapply Forall_impl; [|exact Fc]. intros l. apply line_canon_ok.
+    - intros v Hin. apply has_var_present. apply Hreq. exact Hin. }
+  destruct (parse_entry t) as [e| | |] eqn:Pe; try discriminate. exists e. split; [reflexivity|].
+  rewrite print_entry_lines. transitivity (term_lines (lines t)); [|symmetry; exact Ht]. f_equal.
+  transitivity (flat_map (fun v => lines_of v (lines t)) all_vars); [|symmetry; exact Hg]. unfold printed_lines.
+  apply flat_map_ext. intros v. rewrite lines_of_vals. f_equal.
+  rewrite (parse_entry_semantics t e Pe v). apply strs_collect; auto.
+  specialize (Hs v (all_vars_complete v)). destruct (kind_of v); auto; rewrite lines_of_vals, map_length in Hs; apply Nat.leb_le; exact Hs.
+Qed.
+(* ... and every printed form of a well-formed entry is canonical in this sense *)
+Lemma present_has_var ls v : present v ls -> has_var ls v = true.
+Proof.
+  unfold has_var, present, vals_of, line_var. induction ls as [|l ls IH]; cbn [existsb flat_map]; [congruence|].
+  destruct (line_kv l) as [[w x]|]; [|exact IH]. destruct (var_eqb w v); [reflexivity|exact IH].
+Qed.
+Theorem printed_is_canonical e : wk e -> values_ok e -> complete e -> is_canonical (print_entry e) = true.
+Proof.
+  intros W V C. unfold is_canonical. rewrite print_entry_lines, lines_term by (apply printed_lines_clean; auto).
+  rewrite eqs_refl. cbn [andb]. unfold canonical_lines. rewrite !andb_true_iff. repeat split.
+  - apply forallb_forall. intros l Hl. unfold printed_lines in Hl. apply in_flat_map in Hl as (v & _ & Hl).
+    apply in_map_iff in Hl as (x & <- & Hx). unfold line_canon. rewrite line_kv_kv.
+    destruct (kind_of v) eqn:K; auto. specialize (W v). specialize (V v).
+    destruct (e v) as [[s|z|l]|]; try congruence; cbn [strs_of] in Hx; try destruct Hx as [<-|[]]; try destruct Hx.
+    rewrite parse_print_i64 by exact V. apply eqs_refl.
+  - unfold grouped. rewrite andb_true_iff. split.
+    + replace (flat_map (fun v => lines_of v (printed_lines e)) all_vars) with (printed_lines e); [apply eql_refl|].
+      unfold printed_lines at 1. apply flat_map_ext. intros v. rewrite lines_of_vals, vals_of_printed. reflexivity.
+    + apply forallb_forall. intros v _. destruct (kind_of v) eqn:K; auto;
+      rewrite lines_of_vals, map_length, vals_of_printed; specialize (W v);
+      destruct (e v) as [[s|z|l]|]; try congruence; reflexivity.
+  - apply forallb_forall. intros v Hv. apply present_has_var. unfold present. rewrite vals_of_printed.
+    specialize (C v Hv). specialize (V v). destruct (e v) as [[s|z|l]|]; cbn [strs_of]; try discriminate; try congruence.
+    destruct V as [V _]. exact V.
+Qed.
